@@ -26,6 +26,11 @@ pub fn install() {
             .cloned()
             .or_else(|| info.payload().downcast_ref::<&str>().map(|s| s.to_string()))
             .unwrap_or_else(|| "<non-string panic>".into());
+        // A future that is polled again after it completed may panic (std's contract); whoever polls
+        // it is at fault, not the future. The harness' own transports are async fns / Ready futures,
+        // so such a panic is located in harness code although the library caused it.
+        let repoll = msg.contains("resumed after completion") || msg.contains("polled after completion") || msg.contains("polled after ready") || msg.contains("`Ready` polled after");
+        let loc = if repoll { format!("<completed future polled again> {loc}") } else { loc };
         ALL.with(|a| {
             let mut a = a.borrow_mut();
             if a.len() < 64 {
